@@ -71,13 +71,15 @@ def token_enumeration(maxlen):
     kinds = ["S", "E", "L", "C", "T", "N"]
     failures, cases = [], 0
 
-    def render(seq, keep=None):
+    def render(seq, keep=None, own_lines=False):
         out = []
         for pos, k in enumerate(seq):
             if keep is not None and not keep[pos]:
                 continue
-            out.append({"S": S, "E": E, "L": f"SPDX-License-Identifier: {lic[pos]}\n",
-                        "C": f"SPDX-FileCopyrightText: H{pos}\n", "T": "x ", "N": "\n"}[k])
+            # own_lines: every marker is a comment line of its own, spelled identically each time (the usual layout)
+            out.append({"S": f"# {S}\n" if own_lines else S, "E": f"# {E}\n" if own_lines else E,
+                        "L": f"SPDX-License-Identifier: {lic[pos]}\n",
+                        "C": f"SPDX-FileCopyrightText: H{pos}\n", "T": "x " if not own_lines else "# same text\n", "N": "\n"}[k])
         return "".join(out)
 
     def info(t):
@@ -101,9 +103,10 @@ def token_enumeration(maxlen):
                 else:
                     keep.append(k != "E" or True)
             # a stray E outside a block is ordinary text: keep it (it is not a tag)
-            expected = info(render(seq, keep))
-            got = info(render(seq))
-            if got != expected and len(failures) < 5:
-                failures.append({"tokens": "".join(seq), "text": render(seq), "expected": expected, "got": got})
-    return Bounded("token-enumeration", f"all sequences over {{start,end,licence,copyright,text,newline}} up to length {maxlen}",
+            for own_lines in (False, True):
+                expected = info(render(seq, keep, own_lines))
+                got = info(render(seq, None, own_lines))
+                if got != expected and len(failures) < 5:
+                    failures.append({"tokens": "".join(seq), "text": render(seq, None, own_lines), "expected": expected, "got": got, "replayed": True})
+    return Bounded("token-enumeration", f"all sequences over {{start,end,licence,copyright,text,newline}} up to length {maxlen}, markers glued to their neighbours and as comment lines of their own",
                    cases, failures, "real extract_reuse_info vs real extractor on the text the statement says remains")
